@@ -109,6 +109,16 @@ Definition mf_concat : mergefn := fun _ _ vs => Done (concat vs).
 Definition byte_values : bytes := map N.of_nat (seq 0 256).
 Definition sort_bytes (l : bytes) : bytes := flat_map (fun b => filter (N.eqb b) l) byte_values.
 Definition mf_sortcat : mergefn := fun _ _ vs => Done (sort_bytes (concat vs)).
+
+(* "join with a separator" (0x7C): associative, keeps a lone value, sensitive to the order of the values and
+   to empty values at every position (which a concatenation cannot see) *)
+Fixpoint join_sep (vs : list bytes) : bytes :=
+  match vs with
+  | [] => []
+  | [v] => v
+  | v :: r => v ++ 124 :: join_sep r
+  end.
+Definition mf_join : mergefn := fun _ _ vs => Done (join_sep vs).
 (* fails on the j-th call (counting from 0), otherwise delegates *)
 Definition mf_fail_at (j : N) (mf : mergefn) : mergefn :=
   fun ord k vs => if ord =? j then Fail EMerge else mf ord k vs.
